@@ -202,6 +202,7 @@ def run_check(prop: str, tier: str) -> int:
     triage_deadline = time.monotonic() + float(os.environ.get("VERIF_TRIAGE_S", tcfg.get("triage_s", 120)))
     reported_classes = []
     untriaged = 0
+    nondeterministic_failures = 0
     def _signature_only_entry(v):
         for e in open_entries:
             if not e.get("neutraliser") and rule_matches(e["rules"], v["rule"]) and signature_matches(e.get("signature", {}), v["features"]):
@@ -227,8 +228,13 @@ def run_check(prop: str, tier: str) -> int:
             anomalies.append(f"run {index}: failing run could not be re-executed: {res}")
             continue
         if res.get("digest") != fail.get("digest"):
-            anomalies.append(f"run {index}: re-execution gave another event digest ({fail.get('digest')} vs {res.get('digest')}) - nondeterminism in the harness")
-            continue
+            # Outcomes that depend on which id() / address a new object receives (a stale entry under a reused id)
+            # differ between processes with another allocation history.  That is nondeterminism of the system
+            # under test, not of the schedule: keep what the re-execution shows, and say so.
+            nondeterministic_failures += 1
+            if not res.get("verdicts"):
+                anomalies.append(f"run {index}: a failing run ({[v['rule'] for v in fail['verdicts']]}) did not fail when re-executed - its outcome depends on the process's allocation history")
+                continue
         for v in res["verdicts"]:
             attributed = None
             for e in open_entries:
@@ -263,6 +269,8 @@ def run_check(prop: str, tier: str) -> int:
             violations.append((path, v))
     if untriaged:
         anomalies.append(f"{untriaged} failing runs were not triaged within the triage budget")
+    if nondeterministic_failures:
+        print(f"note: {nondeterministic_failures} failing runs gave another event digest when re-executed (address-dependent outcome)")
 
     wall = time.monotonic() - t0
 
@@ -298,6 +306,7 @@ def run_check(prop: str, tier: str) -> int:
             "components": spec["components"],
             "failing_runs": batch["failed_runs"],
             "failing_runs_triaged": triaged,
+            "failing_runs_with_address_dependent_outcome": nondeterministic_failures,
             "known_findings_suppressed": suppressed,
             "timeouts": len(batch["timeouts"]),
             "harness_anomalies": len(anomalies),
